@@ -633,6 +633,8 @@ func (st *Stack) compactRange(first, last int, expiration *LogExpirationConfig) 
 	lockFileName = st.listFile + ".lock"
 	lockFile, err = os.OpenFile(lockFileName, os.O_EXCL|os.O_CREATE|os.O_WRONLY, 0644)
 	if err != nil {
+		// We did not get the lock, so it is not ours to remove.
+		lockFileName = ""
 		return false, err
 	}
 
